@@ -32,7 +32,7 @@ pub const MENU: [&[&str]; 6] = [
     &["true-values", "solved-composition-pair", "appended-solved-pair", "prepended-junk", "zero-mask+solved-pair", "one-value-short"],
     &["fri-of-deep-function", "fri-of-unrelated-poly+adaptive-leaves", "fri-of-unrelated-poly"],
     &["ground-nonce", "nonce-0"],
-    &["honest-openings", "forged-inner-fri-path", "forged-trace-path"],
+    &["honest-openings", "forged-inner-fri-path", "forged-trace-path", "adaptive-composition-openings", "adaptive-original-trace-openings", "adaptive-interaction-trace-openings"],
 ];
 pub type Moves = [usize; 6];
 pub fn n_dishonest(m: &Moves) -> usize {
@@ -277,6 +277,9 @@ struct Caches {
 }
 struct OodsStage {
     oods: Vec<Felt>,
+    z: Felt,
+    g: Felt,
+    deep_coeffs: Vec<Felt>,
     deep: Vec<Felt>,
     sponge: Sponge,
     violates: bool,
@@ -380,7 +383,7 @@ fn oods_stage(s: &Setup, mv: &Moves, com: &Committed, config: &StarkConfig, c_re
     } else {
         vec![Felt::ZERO; size]
     };
-    OodsStage { oods, deep, sponge: sp, violates, checks }
+    OodsStage { oods, z, g, deep_coeffs, deep, sponge: sp, violates, checks }
 }
 
 /// Play one complete game with the given move vector and assemble the proof.
@@ -441,9 +444,9 @@ fn play(s: &Setup, mv: &Moves, cache: &mut Caches, ctx: &Ctx) -> Built {
     qs.dedup();
     // ---- decommitment
     let open_tab = |t: &Table| -> (Vec<Felt>, Vec<Felt>) { t.open(&qs) };
-    let (v1, mut a1) = open_tab(&com.t1);
-    let (v2, a2) = open_tab(&com.t2);
-    let (v3, a3) = open_tab(&com.t3);
+    let (mut v1, mut a1) = open_tab(&com.t1);
+    let (mut v2, mut a2) = open_tab(&com.t2);
+    let (mut v3, mut a3) = open_tab(&com.t3);
     let mut fri_open = fri.open(&qs);
     if mv[3] == 1 && !fri.layers.is_empty() {
         // adaptive layer-0 leaves: the queried values are the verifier's DEEP values (fixed by the trace
@@ -496,6 +499,49 @@ fn play(s: &Setup, mv: &Moves, cache: &mut Caches, ctx: &Ctx) -> Built {
     if mv[5] == 2 {
         if let Some(x) = a1.first_mut() {
             *x += Felt::ONE;
+        }
+    }
+    if mv[5] >= 3 && ost.oods.len() >= L::MASK_SIZE + L::CONSTRAINT_DEGREE && !fri.layers.is_empty() {
+        // adaptive openings: after the queries are known, choose one opened cell per query so that
+        // the DEEP value the verifier computes equals the value committed in FRI layer 0 (whatever
+        // function that is); authentication paths for such cells cannot exist.
+        let committed = &fri.layers[0].0;
+        for (qi, &q) in qs.iter().enumerate() {
+            let mut cv = Vec::with_capacity(N1 + N2 + 2);
+            cv.extend_from_slice(&v1[qi * N1..(qi + 1) * N1]);
+            cv.extend_from_slice(&v2[qi * N2..(qi + 1) * N2]);
+            cv.extend_from_slice(&v3[qi * 2..(qi + 1) * 2]);
+            let k = match mv[5] {
+                3 => N1 + N2,
+                4 => 0,
+                _ => N1,
+            };
+            let mut at = |c: Felt| -> Felt {
+                cv[k] = c;
+                L::eval_oods_polynomial(&pi, &cv, &ost.oods, &ost.deep_coeffs, &com.points[q], &ost.z, &ost.g).expect("deep evaluator")
+            };
+            let f0 = at(Felt::ZERO);
+            let f1 = at(Felt::ONE);
+            let slope = f1 - f0;
+            if slope == Felt::ZERO || q >= committed.len() {
+                continue;
+            }
+            let c = (committed[q] - f0) * slope.inverse().unwrap();
+            match mv[5] {
+                3 => v3[qi * 2] = c,
+                4 => v1[qi * N1] = c,
+                _ => v2[qi * N2] = c,
+            }
+        }
+        let junk = |a: &mut Vec<Felt>, r: &mut SplitMix| {
+            for x in a.iter_mut() {
+                *x = r.felt();
+            }
+        };
+        match mv[5] {
+            3 => junk(&mut a3, &mut rng),
+            4 => junk(&mut a1, &mut rng),
+            _ => junk(&mut a2, &mut rng),
         }
     }
     let tw = |a: Vec<Felt>| TableWitness { vector: VecWitness { authentications: a } };
@@ -624,7 +670,7 @@ pub fn run(ctx: &Ctx) -> Report {
         "model_checking",
         "the STARK protocol as a game against a bounded adversary: 6 rounds (configuration, trace / composition commitments, \
          out-of-domain values, FRI layers, proof of work, decommitment), each with a finite move menu (choice 0 = what a prover with \
-         a valid trace would do); all move vectors with at most 2 (quick) / 3 (thorough) dishonest moves; the committed trace is \
+         a valid trace would do); all move vectors with at most 2 dishonest moves plus six named three-move attacks (quick) / every move vector (thorough); the committed trace is \
          random (it violates the AIR - checked numerically in every game); every terminal state assembles a real proof with an \
          in-harness prover for the real `recursive` layout and runs the real StarkProof::verify; invariant: not Ok. States = move \
          prefixes, transitions = moves; non-trivial terminal = at least one dishonest move",
@@ -645,7 +691,15 @@ pub fn run(ctx: &Ctx) -> Report {
                 return rep;
             }
         };
-        let (terms, states, transitions) = terminal_states(bound);
+        let (mut terms, states, transitions) = terminal_states(bound);
+        if quick {
+            // the three-move attacks that need an adaptive opening on top of a solved pair and a FRI of
+            // an unrelated polynomial (they are inside the thorough tier's complete enumeration)
+            for d in 3..=5usize {
+                terms.push([0, 0, 1, 2, 0, d]);
+                terms.push([0, 0, 4, 2, 0, d]);
+            }
+        }
         rep.states += states;
         rep.transitions += transitions;
         rep.max_depth = 6;
@@ -690,7 +744,7 @@ pub fn run(ctx: &Ctx) -> Report {
     rep.extra.insert("fri_steps".into(), json!(setup_steps));
     rep.extra.insert("terminal_states".into(), json!(n_terms));
     rep.extra.insert("any_accepted".into(), json!(accepted_any));
-    rep.bound_completed = format!("{}; {} terminal states; layout {} at trace 2^{}; build {}", if quick { "<= 2 dishonest moves, blow-up 2" } else { "every move vector at blow-up 2, <= 3 dishonest moves at blow-up 4" }, n_terms, LAYOUT, setup_t, build_name());
+    rep.bound_completed = format!("{}; {} terminal states; layout {} at trace 2^{}; build {}", if quick { "<= 2 dishonest moves + 6 named three-move attacks, blow-up 2" } else { "every move vector at blow-up 2, <= 3 dishonest moves at blow-up 4" }, n_terms, LAYOUT, setup_t, build_name());
     rep
 }
 
